@@ -304,6 +304,10 @@ func createShimChannel(ctx context.Context, host, shimPath string, rewriteHost b
 		targetURL := *(r.URL)
 		targetURL.Scheme = "ws"
 		targetURL.Host = host
+		// Only the path and query of the client-supplied URL are used: an opaque
+		// URL ("scheme:rest") or one with user info must not influence the dial address.
+		targetURL.Opaque = ""
+		targetURL.User = nil
 		if originalHost := r.Host; rewriteHost && originalHost != "" {
 			r.Header.Set("Host", originalHost)
 		}
